@@ -1,11 +1,25 @@
 use crate::Ctx;
 use crate::out::Sink;
 
+pub mod c01;
+pub mod c10;
+pub mod fmt;
+pub mod c11;
 pub mod c12;
+pub mod c13;
+pub mod c14;
+pub mod c17;
 
 pub fn dispatch(prop: &str, ctx: &Ctx, sink: &mut Sink) -> bool {
     match prop {
+        "C01" => c01::run(ctx, sink),
+        "C07" | "C08" | "C09" => fmt::run(prop, ctx, sink),
+        "C10" => c10::run(ctx, sink),
+        "C11" => c11::run(ctx, sink),
         "C12" => c12::run(ctx, sink),
+        "C13" => c13::run(ctx, sink),
+        "C14" => c14::run(ctx, sink),
+        "C17" => c17::run(ctx, sink),
         _ => return false,
     }
     true
